@@ -161,6 +161,50 @@ def worker():
                     if not ok:
                         res["mismatch"].append({"kind": "tables", "what": "assembly does not preserve a constituent's value / absent channel not absent",
                                                 "row": r, "column": col, "got": str(val)})
+            # the registry of mechanisms is the union of the constituents' (RegistryMatchesTables of JaxleyModule.tla): every channel
+            # of every constituent is registered, its indicator column is a proper boolean (False, not NaN, where absent), currents too
+            want_chans = sorted({c_._name for m_ in (c1, c2, c3, cellB) for c_ in m_.channels})
+            got_chans = sorted(c_._name for c_ in net.channels)
+            want_curs = sorted({c_.current_name for m_ in (c1, c2, c3, cellB) for c_ in m_.channels})
+            if got_chans != want_chans or sorted(set(net.membrane_current_names)) != want_curs:
+                res["mismatch"].append({"kind": "tables", "what": "assembled module does not register the union of its constituents' channels",
+                                        "got": [got_chans, sorted(set(net.membrane_current_names))], "want": [want_chans, want_curs]})
+            for name in want_chans:
+                colv = net.nodes[name] if name in net.nodes.columns else None
+                if colv is None or colv.isna().any() or not set(colv.unique()) <= {True, False}:
+                    res["mismatch"].append({"kind": "tables", "what": "channel indicator column is not a clean boolean", "column": name})
+            # and the assembled network simulates each constituent exactly as it simulates alone (no synapses)
+            for vs in BACKENDS:
+                try:
+                    v_net = run(net, vs)
+                    v_a, v_b = run(cellA, vs), run(cellB, vs)
+                    res["steps"] += 1
+                    want_v = np.concatenate([v_a, v_b, v_a], axis=1)
+                    if v_net.shape != want_v.shape or not np.allclose(v_net, want_v, rtol=1e-12, atol=1e-10):
+                        res["mismatch"].append({"kind": "tables", "what": "heterogeneous network differs from its cells simulated alone",
+                                                "voltage_solver": vs, "maxdiff": float(np.max(np.abs(v_net - want_v))) if v_net.shape == want_v.shape else None})
+                except Exception as e:
+                    if "indexer only supports" in str(e):
+                        continue            # documented refusal of jaxley.stone / jaxley.thomas for unequal compartment counts
+                    res["mismatch"].append({"kind": "tables", "what": "heterogeneous network raised in simulation", "voltage_solver": vs,
+                                            "err": type(e).__name__ + ": " + str(e)[:160]})
+            brE1, brE2 = jx.Branch([c1, c2]), jx.Branch([c2, c3])
+            cellE1 = jx.Cell([brE1, brE2], parents=[-1, 0])
+            cellE2 = jx.Cell([brE2], parents=[-1])
+            netE = jx.Network([cellE2, cellE1])
+            for vs in BACKENDS:
+                try:
+                    v_net, v_1, v_2 = run(netE, vs), run(cellE1, vs), run(cellE2, vs)
+                    res["steps"] += 1
+                    want_v = np.concatenate([v_2, v_1], axis=1)
+                    if v_net.shape != want_v.shape or not np.allclose(v_net, want_v, rtol=1e-12, atol=1e-10):
+                        res["mismatch"].append({"kind": "tables", "what": "heterogeneous network differs from its cells simulated alone",
+                                                "voltage_solver": vs, "maxdiff": float(np.max(np.abs(v_net - want_v))) if v_net.shape == want_v.shape else None})
+                except Exception as e:
+                    if "indexer only supports" in str(e):
+                        continue
+                    res["mismatch"].append({"kind": "tables", "what": "heterogeneous network raised in simulation", "voltage_solver": vs,
+                                            "err": type(e).__name__ + ": " + str(e)[:160]})
             if [int(x) for x in net.nodes["global_comp_index"]] != list(range(11)) or \
                [int(x) for x in net.nodes["global_cell_index"]] != [0] * 5 + [1] + [2] * 5 or \
                [int(x) for x in net.nodes["global_branch_index"]] != [0, 0, 0, 1, 1, 2, 3, 3, 3, 4, 4]:
